@@ -127,7 +127,7 @@ StepAct(R, f, a) ==
          [] a.op = "accept" -> [R EXCEPT !.stack = <<>>]
          [] a.op = "reject" -> [R EXCEPT !.stack = <<>>, !.resp = a.arg]
          [] a.op = "return" -> [R EXCEPT !.stack = Pop(@)]
-         [] a.op = "jump"   -> [R EXCEPT !.stack = Append(IF Bug = "jump_not_advanced" THEN @ ELSE adv,
+         [] a.op = "jump"   -> [R EXCEPT !.stack = Append(IF Bug = "jump_not_advanced" THEN SetTop(@, Frame(f.s, f.pc, 1)) ELSE adv,
                                                             Frame(a.arg, 1, 1))]
          [] a.op = "goto"   -> [R EXCEPT !.stack = <<Frame(a.arg, 1, 1)>>]
          [] a.op = "wstop"  -> [R EXCEPT !.log = Append(@, ent), !.stack = <<>>]
